@@ -142,6 +142,50 @@ def format_of_operand(fn, op, depth=0):
     o = next(iter(org))
     if o[0][0] == "call" and o[0][3] == "std::fmt::format" and len(o) == 1:
         return format_of_call(fn, fn.call_at[o[0][2]])
+    if o[0][0] == "call" and o[0][3] in ("std::string::String::with_capacity", "std::string::String::new") and len(o) == 1:
+        # a String filled piece by piece: `let mut p = String::with_capacity(n); p.push_str(a); p.push('/'); p.push_str(b)`
+        pushes = [c for c in fn.calls if c.path in ("std::string::String::push_str", "std::string::String::push") and c.args
+                  and fn.origins_of_operand(c.args[0]) == org]
+        if not pushes or any(fn.on_cycle(c.bb) for c in pushes):
+            return None
+        order = sorted(pushes, key=lambda c: len([d for d in pushes if d is not c and fn.dominated_by_blocks(c.bb, [d.bb])]))
+        for a, b in zip(order, order[1:]):
+            if not fn.dominated_by_blocks(b.bb, [a.bb]):
+                return None
+        out = []
+        for c in order:
+            a = c.args[1]
+            if c.name == "push":
+                if a["k"] == "const" and a.get("bits") is not None:
+                    out.append(("lit", chr(int(a["bits"])).encode()))
+                else:
+                    return None
+                continue
+            b = _const_bytes_of(fn, a)
+            if b is not None:
+                out.append(("lit", b))
+            else:
+                # the String a `human_readable()` / `to_string()` call returned is shown as it is
+                cur = a
+                for _ in range(4):
+                    df = fn.defs.get(cur["place"]["local"], ()) if cur["k"] in ("copy", "move") and not cur["place"]["proj"] else ()
+                    if len(df) == 1 and df[0][0] == "assign" and df[0][4]["k"] == "ref" and not df[0][4]["place"]["proj"]:
+                        cur = {"k": "copy", "place": df[0][4]["place"]}
+                    elif len(df) == 1 and df[0][0] == "assign" and df[0][4]["k"] == "use":
+                        cur = df[0][4]["op"]
+                    elif len(df) == 1 and df[0][0] == "call" and df[0][4].path in ("std::ops::Deref::deref", "std::string::String::as_str") and df[0][4].args:
+                        cur = df[0][4].args[0]
+                    else:
+                        break
+                ty = fn.local_ty(cur["place"]["local"])["s"] if cur["k"] in ("copy", "move") else ""
+                out.append(("arg", cur, "new_display", ty.lstrip("&")))
+        merged = []
+        for pc in out:
+            if pc[0] == "lit" and merged and merged[-1][0] == "lit":
+                merged[-1] = ("lit", merged[-1][1] + pc[1])
+            else:
+                merged.append(pc)
+        return merged
     if o[0][0] == "call" and o[0][3] == "std::ops::Add::add" and len(o) == 1 and depth < 8:
         c = fn.call_at[o[0][2]]
         if c.self_ty and "String" in c.self_ty and len(c.args) == 2:
